@@ -49,7 +49,8 @@ def LangData.toLR (d : LangData) : LRData :=
   { table := { action := fun s t => match acts s t with
                  | [a] => a
                  | _ => .error
-               goto := fun s n => (d.gotos.get? (s, n)).getD 0 }
+               goto := fun s n => (d.gotos.get? (s, n)).getD 0
+               noLookahead := fun s => (d.lexModes[s]?.map (fun m => m.lexState == noLexState)).getD false }
     actions := acts
     ambiguous := fun s t => (acts s t).length > 1
     visible := fun s => d.visibleSyms.contains s
@@ -91,11 +92,11 @@ def certifyCase (L : LRData) (old incr : Tree) : CertStats := Id.run do
       let (k, ex) := toks[i]!
       u := u.push k
       if !ex then break
-    match certifyReuse L s r.tree.data.symbol w u.toList (shapeT r.tree 0 true #[]) with
+    match certifyReuse L s r.tree.data.symbol w u.toList (shapeT r.tree 0 true #[]) r.tree.data.extra with
     | .ok _ => st := { st with ok := st.ok + 1 }
     | .stuck _ => st := { st with stuck := st.stuck + 1 }
     | .ambiguous =>
-      match certifyReuseGLR L s r.tree.data.symbol w u.toList (shapeT r.tree 0 true #[]) with
+      match certifyReuseGLR L s r.tree.data.symbol w u.toList (shapeT r.tree 0 true #[]) r.tree.data.extra with
       | .ok _ => st := { st with amb := st.amb + 1 }
       | _ => st := { st with stuck := st.stuck + 1 }
     | .mismatch m => st := { st with bad := st.bad <|> some m }
@@ -108,6 +109,7 @@ def LangData.symName (d : LangData) (s : Nat) : String :=
 structure St where
   langs : Std.HashMap String LangData := {}
   colFix : Bool := false
+  eofFix : Bool := false
   cur : String := ""          -- language being defined
   mode : Nat := 0             -- 0 none 1 table 2 langdef 3 old 4 incr 5 scratch 6 walk_incr 7 walk_scratch 8 log
   id : String := ""
@@ -175,7 +177,7 @@ def runCase (s : St) : String :=
     let L := ld.toLang
     let starts := lineStarts s.text2
     let newExt := if dirtyTree i.root then none else some (extLeaves i.root 0 #[])
-    let rs := s.log.foldl (replayLine L ld.symName starts o.root) ({ colFix := s.colFix, newExt := newExt } : RS)
+    let rs := s.log.foldl (replayLine L ld.symName starts o.root) ({ colFix := s.colFix, newExt := newExt, eofEnd := if s.eofFix then some o.root.totalBytes else none } : RS)
     -- diagnosis for known finding C01-eof-lookahead-range-added: a range difference starts at or
     -- after the end of the old tree's last included range (tokens that peeked the old end of input)
     let oldEnd := o.ranges.foldl (fun m r => max m r.end_byte) 0
@@ -235,6 +237,7 @@ def step (s : St) (line : String) : IO St := do
       return updLang s fun d => { d with kct := natOf kct, tokenCount := natOf tc, lexModes := #[], entries := {}, actions := {}, gotos := {} }
     | ["langdef", id] => return { s with cur := id, mode := 2 }
     | ["variant", "colfix", v] => return { s with colFix := v == "1" }
+    | ["variant", "eoffix", v] => return { s with eofFix := v == "1" }
     | ["case", id] =>
       return { s with id := id, lang := "", text2 := #[], old := #[], incr := #[], scratch := #[],
                       walkIncr := #[], walkScratch := #[], log := #[] }
